@@ -302,7 +302,7 @@ func violationsOf(prop string, rep *report) (vs []violation, infra string) {
 	if prop == "C09" {
 		for _, r := range rep.Races {
 			if r.Harness {
-				return nil, "race report involving harness code: " + r.Key + "\n" + firstN(r.Text, 3000)
+				return nil, "race report involving harness code: " + r.Key + "\n" + firstN(r.Text, 1500)
 			}
 			vs = append(vs, violation{Oracle: "C09.race", Key: r.Key, Detail: firstN(r.Text, 4000)})
 		}
